@@ -558,6 +558,28 @@ example : (gbDeliveries demoTree ⟨[1], true, true, []⟩ false 0 [0x10, 8]).ma
   rw [tree_global_broadcast_once demoTree _ false 0 _ (by decide) (by decide) (by decide) (by decide)]
   decide
 
+/-! ## local traffic on trees -/
+
+/-- **tree_local_broadcast_once** — "a local broadcast stays on its network — each recipient
+    exactly once": handed to every other station of the originator's network, once each, source
+    shown = the originator's local address; nothing reaches any other network -/
+theorem tree_local_broadcast_once (T : NetTree) (o : Station) (er : Bool) (prio : Nat) (data : Bytes)
+    (hnd : T.lans.Nodup) (hwf : T.wf [] = true) :
+    localDeliveries T o .bcast er prio data =
+      (T.stations.filter (fun s => s.mac != o.mac)).map
+        (fun s => ⟨T.lan, s.mac, ⟨.localStation o.mac, some .localBroadcast, er, prio, data⟩⟩) := by
+  rw [tree_local T o .bcast er prio data hnd hwf]
+  simp [macOk, Station.adapter, Link.toAddr]
+
+/-- a local unicast reaches the stations with that MAC on the originator's network only -/
+theorem tree_local_unicast_once (T : NetTree) (o : Station) (m : Mac) (er : Bool) (prio : Nat) (data : Bytes)
+    (hnd : T.lans.Nodup) (hwf : T.wf [] = true) :
+    localDeliveries T o (.to m) er prio data =
+      (T.stations.filter (fun s => s.mac == m)).map
+        (fun s => ⟨T.lan, s.mac, ⟨.localStation o.mac, some (.localStation m), er, prio, data⟩⟩) := by
+  rw [tree_local T o (.to m) er prio data hnd hwf]
+  simp [macOk, Station.adapter, Link.toAddr]
+
 /-! ## remote traffic on trees with caches consistent with the tree
 
   `T.warm d` (Lemmas/RouteUnicast.lean) says, for every router on the path from the root to
